@@ -116,6 +116,64 @@ PENDING_REASON = "check under construction in this session (DESIGN.md section 8 
 ALL = [f"C{i:02d}" for i in range(1, 21)]
 
 
+# Additions made while the checks grew (see DESIGN.md 9.5, 9.7): (technique suffix, level-text suffix, note override or None)
+ADDED = {
+    "C10": (
+        "; allocation failure inside an operation (node factory) followed by a retry, commit failure, B-tree branching factor as a per-run knob",
+        " Also per history: a node allocation failing inside operation k with the operation retried, a failing commit (the transaction must have ended: a second commit/rollback is refused), client code scribbling on the objects it handed in, a plain zone holding an empty node, owner names at the 255-octet limit; owner-name sets (zone, iterate_names) are compared besides rdatasets and the published node map must not change while a transaction is open.",
+        None,
+    ),
+    "C11": (
+        "; threadsim tier (readers vs commits and policy changes); per-version flags/delegation-index fingerprints; B-tree branching factor as a per-run knob",
+        " Also: a concurrent tier under the thread scheduler, flags and delegation index of every retained or pinned B-tree version recorded at publication and re-compared after every step (wide cases with 10-24 sibling cuts at branching factor 3), the containers behind nodes and rdatasets as sweep targets, an empty rdataset committed into a share of histories, policies answering with non-bool values, readers closed by leaving `with` through an exception.",
+        None,
+    ),
+    "C12": (
+        "; fault kinds: allocation failure or interrupt-like BaseException in version setup and at commit, allocation failure creating a wait event, timed waits that may expire at any moment",
+        " Workload also contains: a second unrelated zone used by the same threads, retention policy changes from a thread, readers by id and long-held readers, replacement writers, writers that retry a failed commit and that scribble on the rdatasets they passed in; step invariants: pinned versions stay retained, zone.nodes is the newest version's map whenever the lock is free.",
+        None,
+    ),
+    "C13": (
+        "; RFC 1982 boundary serials, SOA-field fault, RRSIG records, B-tree branching factor as a per-run knob",
+        " Stream faults include an SOA whose non-serial field differs; version chains may place the server's serial at the RFC 1982 boundaries relative to ours; make_query/extract_serial_from_query round trip; a valid retry after every failed attempt.",
+        None,
+    ),
+    "C14": (
+        "; Renderer API signing, key rings in every accepted form (Key, dict of Keys, dict of bare secrets incl. the empty secret, callable, parsed relative to an origin), re-rendering after clock jumps, truncated signed responses",
+        " Also: MAC-prefix/extension forgeries, the same message object rendered again after the clock moved beyond the fudge, a signed response overflowing max_size with prefer_truncation, one bare-secret key ring reused for two algorithms (must stay as handed in).",
+        None,
+    ),
+    "C16": (
+        "; resolver LRU caches of size 1/2/50 with an eviction model, lookups in class CH, servers on non-default ports, exception content",
+        " Also compared: the content of NXDOMAIN/NoNameservers/LifetimeTimeout (names tried, failed attempts), Answer.nameserver/port, cache keys with class; outcome kinds include an exception of no particular family and a per-call lifetime of 0.",
+        None,
+    ),
+    "C17": (
+        "; real dns.resolver.Answer objects built from responses (expiration = now + minimum TTL over CNAME chain / SOA), keys re-spelled per call, clock advancing while operations are in flight",
+        " Four puts in five store a real Answer built from a response (CNAME TTL below/above the address TTL, negative answer, negative answer at the end of a CNAME chain into another zone) whose expiration must be now + minimum TTL; every call passes a new equal key object in alternating case; the caller scribbles on statistics snapshots.",
+        None,
+    ),
+    "C18": (
+        "; independent structural walk of every returned datagram/frame (records inside the message, no trailing octets, 12-bit RCODE from OPT)",
+        " Also: two-question queries, frames of 32767-65535 octets, a query object rendered before under another id, TC+trailing octets, extended-RCODE replies without a question, a `tick` clock (CPU cost per clock read) for waits that start at the deadline, IPv6 scope/flow forgeries.",
+        "Trusted: simkit.netsim (FakeSocket, pump, VirtualLoop, transports), the raw-byte acceptance model and record walk in checks/c18.py; for damage other than trailing octets / records running past the end the verdict 'malformed' is still the real strict parser's. _wait_for's selectors body and real kernel socket semantics are not exercised; trio backend not exercised.",
+    ),
+    "C19": (
+        "; signed key spaces (a falsy key in inner nodes)",
+        " Half of the runs use signed keys so that 0 is not the minimum; dropped tree handles.",
+        None,
+    ),
+    "C20": (
+        "; zones of class CH, RRSIG(CNAME)/RRSIG(NS) records, wide sibling cuts at B-tree branching factor 3",
+        " Also: zones of class CH, RRSIG(CNAME) (displaces NS like a CNAME) and RRSIG(NS) (makes no cut) records, wide cases with 10-24 sibling cuts, origin learnt from $ORIGIN.",
+        None,
+    ),
+}
+for _pid, (_t, _x, _n) in ADDED.items():
+    _e = CLAIMED[_pid]
+    CLAIMED[_pid] = (_e[0], _e[1] + _t, _e[2], _e[3] + _x, _n if _n is not None else _e[4], _e[5])
+
+
 def main():
     checks = []
     for pid in ALL:
